@@ -8,7 +8,7 @@ import (
 	"verifharness/internal/gen"
 )
 
-// C02 — row/column counts, row order and cell addressing follow the build history.
+// C02 - row/column counts, row order and cell addressing follow the build history.
 //
 // Monitor: after EVERY operation of a history the full observable state of
 // the real table is compared with a reference table model.  Cells carry a
